@@ -8,6 +8,8 @@ FIRST = {  # caught by the quick check as it was when the change arrived
      'C11':True,'C12':False,'C13':True,'C14':False,'C15':True,'C16':False,'C17':True,'C18':True,'C19':False,'C20':True},
  3: {'C01':False,'C02':True,'C03':False,'C04':False,'C05':False,'C06':False,'C07':True,'C08':True,'C09':True,'C10':False,
      'C11':True,'C12':False,'C13':False,'C14':False,'C15':True,'C16':False,'C17':False,'C18':True,'C19':True,'C20':False},
+ 4: {'C01':True,'C02':True,'C03':True,'C04':False,'C05':True,'C06':False,'C07':True,'C08':False,'C09':True,'C10':False,
+     'C11':True,'C12':False,'C13':True,'C14':False,'C15':True,'C16':False,'C17':False,'C18':True,'C19':True,'C20':False},
 }
 STRENGTH = {
  2: {
@@ -35,12 +37,24 @@ STRENGTH = {
  'C17':'new H_RepairFault: the repair is interrupted by a failing store write at an enumerated node; the same trie must go on reporting what is still absent',
  'C20':'entries are written with or without a field; a retained entry must carry exactly its own fields',
  },
+ 4: {
+ 'C04':'run readd-r1-tx2x3: the last transaction of a round deletes a path, re-inserts it and inserts another (fixed operation kinds, all paths and values)',
+ 'C06':'none in C06 (sequential); the change publishes a block\'s link before its values, which only a lookup overlapping the commit sees: the C08 check catches it (check_with = C08)',
+ 'C08':'run r1-l1-own: the reader may go through the committing block\'s own handle',
+ 'C10':'tamper kind 9 (a shared-prefix element\'s key lengthened by its child hash, followed by an arbitrary value element) and a single-key trie run',
+ 'C12':'sources viewed through CopyRoot(1) / CopyRoot(2) over committed storage (modes 3 and 4)',
+ 'C14':'none in C14 (its values stay far below the 10 MiB limit the change truncates at); the C01 check, which shrinks MPTMaxAllowableNodeSize to 8 by overlay, catches it (check_with = C01)',
+ 'C16':'the absent-node run: goroutine 0 may Insert under an absent node, goroutine 1 may read the missing-key list (lock-order inversion shows as kind=deadlock)',
+ 'C17':'run layered-seed3: the trie\'s store is a two-level LevelNodeDB',
+ 'C19':'after a path was obtained the tree hands out another path; the earlier path must still verify',
+ 'C20':'NOT CAUGHT: the change mutates retained entries inside WriteLogs; WriteLogs builds a zap console encoder, which the engine stubs (a call on the stubbed encoder would abort the path), so no run calls it',
+ },
 }
 res = {}
 for l in open('/verif/seeded/RESULTS.txt'):
     m = re.match(r'(C\d+-\d+) check=(C\d+) tier=(\w+) rc=(\d+) labels=(\S*) inconclusive=(\d+)', l)
     if m: res[m.group(1)] = m.groups()
-rows = {1: [], 2: [], 3: []}
+rows = {1: [], 2: [], 3: [], 4: []}
 for d in sorted(os.listdir('/verif/seeded')):
     m = re.match(r'(C\d\d)-(\d)$', d)
     if not m: continue
@@ -74,7 +88,7 @@ for d in sorted(os.listdir('/verif/seeded')):
     json.dump(meta, open(mp, 'w'), indent=1)
     rows[rnd].append((d, meta))
 if '--table' in sys.argv:
-    for rnd in (2, 3):
+    for rnd in (2, 3, 4):
         print(f'\nRound {rnd}:\n')
         print('| id | seeded change | first | now | violated assertion | what was strengthened |')
         print('|----|---------------|-------|-----|--------------------|------------------------|')
